@@ -80,3 +80,68 @@ func ZZ_C20_seek() {
 	}
 	nd.Reach("done")
 }
+
+// ZZ_C20_mixed: heights 1..4 committed with additive changes, where one height
+// may be committed in two batches (two Commit calls for the same height, as
+// happens when two components share a height); then an optional seek, a
+// rollback to any height still within capacity (also while the state is
+// seeked below or above the target), a commit of the next height, and a final
+// rollback. After every step the state equals the prefix sum of the height the
+// history claims. Capacity counts distinct heights.
+func ZZ_C20_mixed() {
+	const H = 4
+	capc := nd.Choose("capacity", 3) + 2 // 2..4
+	h := NewHistory(capc)
+	var x int64
+	var S [H + 3]int64
+	dup := nd.Choose("doubleCommitHeight", H+1) // 0 = none
+	for ht := 1; ht <= H; ht++ {
+		n := 1
+		if ht == dup {
+			n = 2
+		}
+		for b := 0; b < n; b++ {
+			d := int64(nd.U16("delta"))
+			h.Append(uint32(ht), func() { x += d }, func() { x -= d })
+			h.Commit(uint32(ht))
+		}
+		S[ht] = x
+		nd.Assert(h.Height() == uint32(ht), "height_after_commit")
+	}
+	retained := capc
+	if retained > H {
+		retained = H
+	}
+	low := H - retained
+	if dup != 0 && low < H-1 {
+		// a second batch for an already held height still counts against the
+		// capacity when it is committed: the window may be one height shorter
+		low++
+	}
+	at := H
+	if nd.Choose("seekFirst", 2) == 1 {
+		t := low + nd.Choose("seek", H-low+1)
+		err := h.SeekTo(uint32(t))
+		nd.Assert(err == nil, "seek_within_capacity_succeeds")
+		if err == nil {
+			at = t
+		}
+		nd.Assert(x == S[at], "state_after_seek")
+	}
+	nd.Reach("prepared")
+	t := low + nd.Choose("rollback", H-low) // a height below the best height
+	err := h.RollbackTo(uint32(t))
+	nd.Assert(err == nil, "rollback_within_capacity_succeeds")
+	nd.Assert(h.Height() == uint32(t), "height_after_rollback")
+	nd.Assert(x == S[t], "state_after_rollback_equals_prefix_sum")
+	// the next height arrives
+	d := int64(nd.U16("delta"))
+	h.Append(uint32(t+1), func() { x += d }, func() { x -= d })
+	h.Commit(uint32(t + 1))
+	S[t+1] = S[t] + d
+	nd.Assert(x == S[t+1], "commit_after_rollback_equals_prefix_sum")
+	// and it can be undone again
+	err = h.RollbackTo(uint32(t))
+	nd.Assert(err == nil && x == S[t], "second_rollback_restores_prefix_sum")
+	nd.Reach("done")
+}
